@@ -494,7 +494,28 @@ func (ip *Interp) rangeStep(st *istate, rs *ast.RangeStmt) []condOut {
 		ip.store(st, rs.Key, IVal{K: 'i', I: cnt.I, Typ: kt})
 	}
 	if rs.Value != nil {
-		ip.store(st, rs.Value, IVal{K: 'u', Env: lim.Env})
+		ev := IVal{K: 'u', Env: lim.Env}
+		et := ip.info.TypeOf(rs.Value)
+		if base, ok := st.heap[ck+".s"]; ok && base.K == 's' {
+			if base.Ref != "" {
+				if v, ok := st.heap[fmt.Sprintf("%s[%d]", base.Ref, cnt.I)]; ok {
+					ev = v
+				}
+			} else if base.Env && ip.Input != nil {
+				if _, pretty, ok := ip.lvalue(st, rs.X); ok {
+					key := fmt.Sprintf("elem:%s[%d]", pretty, cnt.I)
+					ip.res.Consumed[key] = true
+					if v, ok := ip.Input(key, et); ok {
+						if v.K == 'i' {
+							v.Typ = basicInt(et)
+							v.I = wrap(v.I, v.Typ, ip.cf.Pkg.TypesSizes)
+						}
+						ev = v
+					}
+				}
+			}
+		}
+		ip.store(st, rs.Value, ev)
 	}
 	st.heap[ck] = IVal{K: 'i', I: cnt.I + 1}
 	return []condOut{{st, true}}
@@ -816,6 +837,7 @@ func (ip *Interp) exec(st *istate, n ast.Node) {
 			switch {
 			case v.K == 's' && v.L >= 0:
 				st.heap[ck+".n"] = IVal{K: 'i', I: v.L, Env: v.Env}
+				st.heap[ck+".s"] = v
 			case v.K == 'i':
 				st.heap[ck+".n"] = IVal{K: 'i', I: v.I}
 			default:
@@ -838,6 +860,14 @@ func (ip *Interp) exec(st *istate, n ast.Node) {
 
 // ---------------------------------------------------------------------------
 // expressions
+
+func isFloatType(t types.Type) bool {
+	if t == nil {
+		return false
+	}
+	b, ok := t.Underlying().(*types.Basic)
+	return ok && b.Info()&(types.IsFloat|types.IsComplex) != 0
+}
 
 func wrap(v int64, bt *types.Basic, sizes types.Sizes) int64 {
 	if bt == nil {
@@ -1016,6 +1046,9 @@ func (ip *Interp) eval0(st *istate, e ast.Expr) IVal {
 		case constant.Bool:
 			return IVal{K: 'b', I: b2i(constant.BoolVal(tv.Value))}
 		case constant.Int:
+			if isFloatType(tv.Type) {
+				return IVal{K: 'e'} // floats are carried as bit patterns only
+			}
 			if i, exact := constant.Int64Val(tv.Value); exact {
 				return IVal{K: 'i', I: i, Typ: basicInt(tv.Type)}
 			}
@@ -1075,6 +1108,12 @@ func (ip *Interp) eval0(st *istate, e ast.Expr) IVal {
 				return IVal{K: 'b', I: 1 - v.I}
 			}
 			return v
+		}
+		if isFloatType(info.TypeOf(x)) && (x.Op == token.SUB || x.Op == token.ADD) {
+			ip.eval(st, x.X)
+			return IVal{K: 'u'}
+		}
+		switch x.Op {
 		case token.SUB:
 			bt := basicInt(info.TypeOf(x))
 			return ip.arith(token.SUB, IVal{K: 'i', Typ: bt}, ip.eval(st, x.X), bt, x)
@@ -1099,6 +1138,14 @@ func (ip *Interp) eval0(st *istate, e ast.Expr) IVal {
 			}
 			// the right operand may or may not be evaluated: be conservative
 			return IVal{K: 'u'}
+		}
+		if isFloatType(info.TypeOf(x.X)) || isFloatType(info.TypeOf(x.Y)) {
+			// floats are carried as bit patterns: no arithmetic, no comparison
+			ip.eval(st, x.X)
+			ip.eval(st, x.Y)
+			return IVal{K: 'u'}
+		}
+		switch x.Op {
 		case token.EQL, token.NEQ, token.LSS, token.LEQ, token.GTR, token.GEQ:
 			a, b := ip.eval(st, x.X), ip.eval(st, x.Y)
 			return ip.compare(x.Op, a, b, x)
@@ -1300,14 +1347,7 @@ func (ip *Interp) call(st *istate, call *ast.CallExpr) []IVal {
 	// conversion
 	if tv, ok := info.Types[call.Fun]; ok && tv.IsType() && len(call.Args) == 1 {
 		v := ip.eval(st, call.Args[0])
-		isFloat := func(t types.Type) bool {
-			if t == nil {
-				return false
-			}
-			b, ok := t.Underlying().(*types.Basic)
-			return ok && b.Info()&types.IsFloat != 0
-		}
-		if isFloat(info.TypeOf(call.Args[0])) != isFloat(tv.Type) {
+		if isFloatType(info.TypeOf(call.Args[0])) != isFloatType(tv.Type) {
 			return []IVal{{K: 'u'}} // numeric conversion between float and integer: not a bit cast
 		}
 		if bt := basicInt(tv.Type); bt != nil {
